@@ -156,7 +156,7 @@ def shedder(ctx):
     # latencies is several requests, the capacity from latencies rounded down to whole milliseconds is smaller
     subms = script((["burstL"], [0]), (["passn"], [1, 7]), (["burstL"], [0]), (["passn"], [7, 9]),
                    (["burstL"], [0]), (["passn"], [6, 7]), (["burstS"], [100 * MS, 150 * MS]),
-                   (["allowHot", "burstS"], [0]), (["allowHot"], [0]), (["allowHot"], [0]))
+                   (["allowHot"], [0]), (["allowHot"], [0]), (["allowHot"], [0]))
     if ctx.quick:
         cool = script((["burstL"], [0]), (["fail", "passn"], [0, 125 * MS]), (["allowHot"], [0, 125 * MS, S]),
                       (["allowHot", "allowCool", "fail"], [0, S - 100, S, S + 100]), (["allowCool", "allowHot"], [0, S - 1, S, S + 1]))
